@@ -1,5 +1,7 @@
 import SaphyrVerif.Spec.BudgetSpec
 import SaphyrVerif.Lemmas.C07
+import SaphyrVerif.Lemmas.C07_PerDoc
+import SaphyrVerif.Model.Pump
 /-!
 # C07 — budget limits are enforced exactly and the usage report is accurate
 
@@ -92,6 +94,7 @@ theorem accepts_iff (lim : Limits) (ds : List Node) (hlen : (flattenStream ds).l
       unfold run at h
       obtain ⟨pre, ev, post, heq, -, -, herr⟩ := runFrom_err h
       have hb := observe_err herr
+      rw [pro_of_not_pd ev (by simp [Enf.new])] at hb
       rw [within_iff] at hwi
       simp only [usage, nEvents, maxDepth] at hwi
       rw [← hmk, heq] at hwi
@@ -200,6 +203,7 @@ theorem first_breach_kind (lim : Limits) (evs : List Raw) (i : Nat) (b : Breach)
   unfold run at h ⊢
   obtain ⟨pre, ev, post, rfl, rfl, hok, herr⟩ := runFrom_err h
   have hb := observe_err herr
+  rw [pro_of_not_pd ev (by simp [Enf.new])] at hb
   have ht : (pre ++ ev :: post).take (0 + pre.length) = pre := by simp
   have ht1 : (pre ++ ev :: post).take (0 + pre.length + 1) = pre ++ [ev] := by
     rw [show pre ++ ev :: post = (pre ++ [ev]) ++ post by simp]; exact List.take_left' (by simp)
@@ -225,45 +229,344 @@ theorem first_breach_kind (lim : Limits) (evs : List Raw) (i : Nat) (b : Breach)
   case depth n => exact hb.2.2
   case mergeKeys n => exact hb.2.2
 
+/-! ## per-document policy (`EnforcingPolicy::PerDocument`, the `read*` iterators)
+
+A document is charged from its own `DocumentStart` through its `DocumentEnd`: `observe` forgets the previous
+document BEFORE it counts a `DocumentStart`, and does not count `StreamStart` / `StreamEnd`.  (Before the
+repair the `DocumentStart` of the NEXT document was counted and limit-checked against the counters of the
+document already read, and `StreamEnd` was charged to the last document: see the regression examples and
+`observeOld` below.) -/
+
 /-- a stream under the per-document policy -/
 def perDocAccepts (lim : Limits) (ds : List Node) : Bool :=
   match run lim true (flattenStream ds) with
   | .ok _ => true
   | .error _ => false
 
+/-- everything the enforcer sees before a document that is preceded by the documents `pre` -/
+def beforeDoc (pre : List Node) : List Raw := .streamStart :: flattenDocs pre
+
 /-- (T) perdoc_independent: under per-document enforcement a stream is accepted exactly when each of
 its documents is accepted as a stream of its own — the documents already read never matter.
-(True of the repaired code: anchors, depth and container state are reset at every DocumentStart.) -/
-theorem perdoc_independent (lim : Limits) (ds : List Node) (hne : ds ≠ []) :
+For ALL streams (the old code needed `ds ≠ []` and satisfied it only because a one-document stream was charged
+the same two framing events as the first document of a longer one). -/
+theorem perdoc_independent (lim : Limits) (ds : List Node) :
     perDocAccepts lim ds = ds.all (fun d => perDocAccepts lim [d]) := by
   have hacc : ∀ ds, perDocAccepts lim ds = acc (run lim true (flattenStream ds)) := fun ds => by
     unfold perDocAccepts acc; rfl
-  have hsingle : ∀ d, perDocAccepts lim [d] = docOk lim d := fun d => by
-    rw [hacc, perDoc_eq]
-    simp only [List.all_cons, List.all_nil, Bool.and_true]
-    cases hd : docOk lim d
-    · simp
-    · have := docOk_events hd
-      simp; omega
+  have hsingle : ∀ d, perDocAccepts lim [d] = acc (docRun lim d) := fun d => by
+    rw [hacc, perDoc_single, acc_shiftErr]
   simp only [hsingle]
-  rw [hacc, perDoc_eq]
-  cases ds with
-  | nil => exact absurd rfl hne
-  | cons d ds =>
-    simp only [List.all_cons]
-    cases hd : docOk lim d
-    · simp
-    · have := docOk_events hd
-      have h1 : decide (1 ≤ lim.maxEvents) = true := by simp; omega
-      have h2 : decide (2 ≤ lim.maxEvents) = true := by simp; omega
-      simp [h1, h2]
+  rw [hacc, perDoc_run_eq, acc_perDocSpec]
 
-/-- (T) the per-document enforcer state right after a DocumentStart does not depend on the history -/
+/-- (T) the per-document enforcer state right after a DocumentStart does not depend on the history: everything is
+reset, and the DocumentStart itself is the one event charged so far. -/
 theorem perdoc_state_reset (e e' : Enf) (x : Bool) (hpd : e.perDocument = true)
     (h : e.observe (.docStart x) = .ok e') :
-    e'.report = { documents := e.report.documents } ∧ e'.defined = [] ∧ e'.depth = 0 ∧ e'.containers = [] := by
+    e'.report = { events := 1, documents := e.report.documents } ∧ e'.defined = [] ∧ e'.depth = 0 ∧
+      e'.containers = [] := by
   obtain ⟨rfl, -⟩ := observe_ok h
   simp [next, hpd, isDocStart]
+
+/-- (T) perdoc_position_independent, event level, at full generality: under the per-document policy the run over ANY
+event list that begins with a `DocumentStart` (a document, or a document and everything after it) is the same —
+final state (report, defined anchors, depth, containers) and every breach with its index — from any two enforcer
+states with the same limits and documents counter.  The states are arbitrary: whatever was counted before, whatever
+anchors / depth / containers an earlier (also an abandoned, half-read) document left behind, is irrelevant. -/
+theorem perdoc_position_independent_raw (e e' : Enf) (hpd : e.perDocument = true) (hpd' : e'.perDocument = true)
+    (hl : e.lim = e'.lim) (hdoc : e.report.documents = e'.report.documents) (x : Bool) (evs : List Raw) (i : Nat) :
+    runFrom e i (.docStart x :: evs) = runFrom e' i (.docStart x :: evs) :=
+  runFrom_docStart_pd hpd hpd' hl hdoc x evs i
+
+/-- (T) perdoc_position_independent: in a stream `pre ++ [d] ++ post` the run over `d`'s events
+(`DocumentStart … DocumentEnd`) from the state `e` reached after `pre` EQUALS the run from the fresh state: the same
+enforcer state at `d`'s `DocumentEnd` (report, defined anchors, depth, containers — the whole `Enf`) and the same
+breach at the same event.  (`post` cannot occur in the statement: the run over `d` is over before `post` is seen;
+that nothing in `post` is charged to `d` is `perdoc_stream_decomp` / `perdoc_followers_independent` /
+`perdoc_breach_in_doc`.) -/
+theorem perdoc_position_independent (lim : Limits) (pre : List Node) (d : Node) (e : Enf) (k : Nat)
+    (hpre : run lim true (beforeDoc pre) = .ok e) :
+    runFrom e k (flattenDoc d) = runFrom (Enf.new lim true) k (flattenDoc d) :=
+  have hs : PdState lim e := pdState_run (pdState_new lim) hpre
+  runFrom_docStart_pd hs.1 rfl hs.2.1 hs.2.2 _ _ _
+
+/-- (T) the whole stream, decomposed at a document: once the documents before `d` are accepted, what happens from `d`
+on does not depend on the state they left (`.ok _`); `d` is run from the fresh state; and what follows `d` is run
+from the state `d` ended in — which `perdoc_followers_independent` shows to be irrelevant as well. -/
+theorem perdoc_stream_decomp (lim : Limits) (pre : List Node) (d : Node) (post : List Node) :
+    run lim true (flattenStream (pre ++ d :: post)) =
+      match run lim true (beforeDoc pre) with
+      | .error x => .error x
+      | .ok _ =>
+        match runFrom (Enf.new lim true) (beforeDoc pre).length (flattenDoc d) with
+        | .error x => .error x
+        | .ok e1 =>
+          runFrom e1 ((beforeDoc pre).length + (flattenDoc d).length) (flattenDocs post ++ [.streamEnd]) := by
+  have hsplit : flattenStream (pre ++ d :: post) = beforeDoc pre ++ (flattenDoc d ++ (flattenDocs post ++ [.streamEnd])) := by
+    have h : ∀ xs ys : List Node, flattenDocs (xs ++ ys) = flattenDocs xs ++ flattenDocs ys := by
+      intro xs ys
+      induction xs with
+      | nil => rfl
+      | cons x xs ih => simp only [List.cons_append, flattenDocs, ih, List.append_assoc]
+    simp only [flattenStream, beforeDoc, h, flattenDocs, List.cons_append, List.append_assoc]
+  unfold run
+  rw [hsplit, runFrom_append]
+  cases hpre : runFrom (Enf.new lim true) 0 (beforeDoc pre) with
+  | error x => rfl
+  | ok e =>
+    simp only []
+    rw [runFrom_append, Nat.zero_add,
+      perdoc_position_independent lim pre d e (beforeDoc pre).length hpre]
+    rfl
+
+/-- (T) nothing that FOLLOWS a document is charged to it, part 1: `StreamEnd` is not observed — the state at the
+last `DocumentEnd` is the final state, and no breach can be raised there. -/
+theorem perdoc_streamEnd_free (e : Enf) (k : Nat) (hpd : e.perDocument = true) :
+    runFrom e k [.streamEnd] = .ok e := by
+  simp only [runFrom, observe_frame_pd hpd (ev := .streamEnd) rfl]
+
+/-- (T) nothing that FOLLOWS a document is charged to it, part 2: the run over the following documents (beginning
+with the `DocumentStart` of the next one — the event the old code charged to the document already read) is the
+same from the state `d` ended in as from the fresh state. -/
+theorem perdoc_followers_independent (lim : Limits) (e1 : Enf) (k : Nat) (d2 : Node) (post : List Node)
+    (hpd : e1.perDocument = true) (hl : e1.lim = lim) (hdoc : e1.report.documents = 0) :
+    runFrom e1 k (flattenDocs (d2 :: post) ++ [.streamEnd]) =
+      runFrom (Enf.new lim true) k (flattenDocs (d2 :: post) ++ [.streamEnd]) := by
+  simp only [flattenDocs, flattenDoc, List.cons_append]
+  exact runFrom_docStart_pd hpd rfl hl hdoc _ _ _
+
+/-- (T) every breach raised inside a document is that document's own: if the stream `pre ++ [d] ++ post` is rejected
+at an event of `d` (index within `d`'s `DocumentStart … DocumentEnd`), then `d` read on its own from the fresh
+state is rejected at the same event with the same breach. -/
+theorem perdoc_breach_in_doc (lim : Limits) (pre : List Node) (d : Node) (post : List Node) (j : Nat) (b : Breach)
+    (h : run lim true (flattenStream (pre ++ d :: post)) = .error ((beforeDoc pre).length + j, b))
+    (hj : j < (flattenDoc d).length) :
+    runFrom (Enf.new lim true) 0 (flattenDoc d) = .error (j, b) := by
+  rw [perdoc_stream_decomp] at h
+  split at h
+  · rename_i x hx
+    obtain ⟨x1, x2⟩ := x
+    injection h with h; injection h with h1 h2; subst h1 h2
+    have := (runFrom_err_index hx).2
+    omega
+  · split at h
+    · rename_i x hx
+      obtain ⟨x1, x2⟩ := x
+      injection h with h; injection h with h1 h2; subst h1 h2
+      have hsh := runFrom_shift (Enf.new lim true) (beforeDoc pre).length 0 (flattenDoc d)
+      rw [Nat.add_zero, hx] at hsh
+      cases h0 : runFrom (Enf.new lim true) 0 (flattenDoc d) with
+      | ok e1 => rw [h0] at hsh; cases hsh
+      | error p =>
+        obtain ⟨p1, p2⟩ := p
+        rw [h0] at hsh
+        simp only [shiftErr] at hsh
+        injection hsh with hsh; injection hsh with h1 h2
+        have : p1 = j := by omega
+        subst this; subst h2; rfl
+    · rename_i e1 he1
+      have := (runFrom_err_index h).1
+      omega
+
+/-- (T) … and conversely: when the documents before `d` are accepted, a breach of `d` on its own surfaces in the
+stream at the same event of `d`, whatever follows. -/
+theorem perdoc_doc_breach_surfaces (lim : Limits) (pre : List Node) (d : Node) (post : List Node) (j : Nat) (b : Breach)
+    (hpre : perDocAccepts lim pre = true)
+    (h : runFrom (Enf.new lim true) 0 (flattenDoc d) = .error (j, b)) :
+    run lim true (flattenStream (pre ++ d :: post)) = .error ((beforeDoc pre).length + j, b) := by
+  rw [perdoc_stream_decomp]
+  have hp : ∃ e, run lim true (beforeDoc pre) = .ok e := by
+    unfold perDocAccepts at hpre
+    rw [perDoc_run_eq] at hpre
+    unfold beforeDoc
+    rw [perDoc_prefix_eq]
+    cases h0 : perDocSpec lim 1 (Enf.new lim true) pre with
+    | ok e => exact ⟨e, rfl⟩
+    | error p => rw [h0] at hpre; cases hpre
+  obtain ⟨e, he⟩ := hp
+  rw [he]
+  simp only []
+  have hsh := runFrom_shift (Enf.new lim true) (beforeDoc pre).length 0 (flattenDoc d)
+  rw [Nat.add_zero, h] at hsh
+  rw [hsh]; rfl
+
+/-- the usage charged to document `d` when it is read after the documents `pre`: the report (`finalize` /
+`into_report`) taken at its `DocumentEnd`; `none` if the run is rejected before -/
+def chargedTo (lim : Limits) (pre : List Node) (d : Node) : Option Report :=
+  okReport (run lim true (beforeDoc pre ++ flattenDoc d))
+
+/-- the usage report of the one-document stream `[d]` (`StreamStart`, `d`, `StreamEnd`) -/
+def usageOfSingle (lim : Limits) (d : Node) : Option Report :=
+  okReport (run lim true (flattenStream [d]))
+
+theorem prefix_ok_of_accepts {lim : Limits} {pre : List Node} (hpre : perDocAccepts lim pre = true) :
+    ∃ e, run lim true (beforeDoc pre) = .ok e := by
+  unfold perDocAccepts at hpre
+  rw [perDoc_run_eq] at hpre
+  unfold beforeDoc
+  rw [perDoc_prefix_eq]
+  cases h0 : perDocSpec lim 1 (Enf.new lim true) pre with
+  | ok e => exact ⟨e, rfl⟩
+  | error p => rw [h0] at hpre; cases hpre
+
+/-- (T) perdoc_usage_eq_single, states: the enforcer state at `d`'s `DocumentEnd` after ANY accepted documents `pre`
+is the final state of the one-document stream `[d]` — and so is the final state of a stream that ends with `d`. -/
+theorem perdoc_state_eq_single (lim : Limits) (pre : List Node) (d : Node) (hpre : perDocAccepts lim pre = true) :
+    run lim true (beforeDoc pre ++ flattenDoc d) = shiftErr (beforeDoc pre).length (docRun lim d) ∧
+    run lim true (flattenStream (pre ++ [d])) = shiftErr (beforeDoc pre).length (docRun lim d) ∧
+    run lim true (flattenStream [d]) = shiftErr 1 (docRun lim d) := by
+  obtain ⟨e, he⟩ := prefix_ok_of_accepts hpre
+  have hs : PdState lim e := pdState_run (pdState_new lim) he
+  have h1 : run lim true (beforeDoc pre ++ flattenDoc d) = shiftErr (beforeDoc pre).length (docRun lim d) := by
+    unfold run at he ⊢
+    rw [runFrom_append, he]
+    simp only [Nat.zero_add]
+    exact runFrom_flattenDoc_pd hs _ d
+  refine ⟨h1, ?_, perDoc_single lim d⟩
+  rw [perdoc_stream_decomp, he]
+  simp only []
+  have hsh := runFrom_shift (Enf.new lim true) (beforeDoc pre).length 0 (flattenDoc d)
+  rw [Nat.add_zero] at hsh
+  rw [hsh]
+  unfold docRun
+  cases h0 : runFrom (Enf.new lim true) 0 (flattenDoc d) with
+  | error p => rfl
+  | ok e1 =>
+    simp only [shiftErr, flattenDocs, List.nil_append]
+    exact perdoc_streamEnd_free e1 _ (pdState_run (pdState_new lim) h0).1
+
+/-- (T) perdoc_usage_eq_single: the usage charged to `d` — events, aliases, anchors, nodes, depth, scalar bytes, merge
+keys — is the usage of the one-document stream `[d]`, whatever accepted documents were read before it.
+First position is `pre = []`, a middle position is any `pre` with something following (what follows is not part of
+`chargedTo`: see `perdoc_followers_independent`), the last position is `perdoc_usage_last`. -/
+theorem perdoc_usage_eq_single (lim : Limits) (pre : List Node) (d : Node) (hpre : perDocAccepts lim pre = true) :
+    chargedTo lim pre d = usageOfSingle lim d := by
+  obtain ⟨h1, -, h3⟩ := perdoc_state_eq_single lim pre d hpre
+  unfold chargedTo usageOfSingle
+  rw [h1, h3, okReport_shiftErr, okReport_shiftErr]
+
+/-- (T) perdoc_usage_eq_single, last position: the report `finalize` returns at the end of a stream is the usage of
+its LAST document on its own (`StreamEnd` is charged to nobody). -/
+theorem perdoc_usage_last (lim : Limits) (pre : List Node) (d : Node) (hpre : perDocAccepts lim pre = true) :
+    okReport (run lim true (flattenStream (pre ++ [d]))) = usageOfSingle lim d := by
+  obtain ⟨-, h2, h3⟩ := perdoc_state_eq_single lim pre d hpre
+  unfold usageOfSingle
+  rw [h2, h3, okReport_shiftErr, okReport_shiftErr]
+
+/-- (T) the usage charged to a document is the independent count of ITS OWN events (`DocumentStart … DocumentEnd`,
+Spec `usageDoc`): when document `d` is accepted from the fresh per-document state, the report equals `usageDoc d`.
+With `perdoc_usage_eq_single` / `perdoc_usage_last`: the same numbers at the first, a middle and the last position. -/
+theorem perdoc_report_eq_usageDoc (lim : Limits) (d : Node) (e : Enf)
+    (hlen : (flattenDoc d).length < 2 ^ 64)
+    (h : runFrom (Enf.new lim true) 0 (flattenDoc d) = .ok e) :
+    e.finalize.1 = usageDoc d := by
+  have h' : docRun lim d = .ok e := h
+  rw [docRun_eq] at h'
+  split at h'
+  · cases h'
+  · obtain ⟨rfl, -⟩ := runFrom_ok h'
+    have hp := docBody_plain d
+    have hl : (docBody d).length < 2 ^ 64 := by
+      rw [flattenDoc_eq] at hlen; simp only [List.length_cons] at hlen; omega
+    obtain ⟨-, hmd⟩ := doc_depth lim _ hp hl
+    have hmk : mkAll false [] (docBody d) = mergeKeys d := congrArg (·.2.1) (G_docBody false d)
+    rw [finalize_fst]
+    simp only [usageDoc]
+    rw [doc_events lim _ hp, doc_aliases lim _ hp, doc_defined lim _ hp, doc_documents, doc_nodes lim _ hp, hmd,
+      doc_tsb lim _ hp, doc_mergeKeys lim _ hp, hmk,
+      nEvents_doc, nAliases_doc, nAnchors_doc, nNodes_doc, maxDepth_doc, scalarBytes_doc]
+
+/-- (T) per-document `accepts_iff`: a document is accepted under the per-document policy ⇔ every count of its own
+events is within its limit (`max_documents` plays no role: the documents counter stays 0). -/
+theorem perdoc_accepts_iff (lim : Limits) (d : Node) (hlen : (flattenDoc d).length < 2 ^ 64) :
+    perDocAccepts lim [d] = true ↔ within lim (usageDoc d) = true := by
+  have hacc : perDocAccepts lim [d] = acc (docRun lim d) := by
+    have : perDocAccepts lim [d] = acc (run lim true (flattenStream [d])) := by unfold perDocAccepts acc; rfl
+    rw [this, perDoc_single, acc_shiftErr]
+  have hp := docBody_plain d
+  have hl : (docBody d).length < 2 ^ 64 := by
+    rw [flattenDoc_eq] at hlen; simp only [List.length_cons] at hlen; omega
+  have hmk : mkAll false [] (docBody d) = mergeKeys d := congrArg (·.2.1) (G_docBody false d)
+  rw [hacc]
+  constructor
+  · intro ha
+    cases h : docRun lim d with
+    | error p => rw [h] at ha; cases ha
+    | ok e =>
+      have hu := perdoc_report_eq_usageDoc lim d e hlen h
+      rw [docRun_eq] at h
+      split at h
+      · cases h
+      · rename_i h1
+        obtain ⟨rfl, hw⟩ := runFrom_ok h
+        have hw := hw (by simp [Within, docStartState]; omega)
+        rw [← hu, finalize_fst]
+        simp only [Within, doc_lim] at hw
+        rw [within_iff]
+        dsimp only
+        omega
+  · intro hwi
+    cases h : docRun lim d with
+    | ok e => rfl
+    | error p =>
+      exfalso
+      obtain ⟨j, b⟩ := p
+      rw [within_iff] at hwi
+      simp only [usageDoc] at hwi
+      rw [nEvents_doc, nAliases_doc, nAnchors_doc, nNodes_doc, maxDepth_doc, scalarBytes_doc, ← hmk] at hwi
+      rw [docRun_eq] at h
+      split at h
+      · omega
+      · have hnu : b ≠ .unbalanced := by
+          rintro rfl
+          have := unbalanced_wfAll_false (e := docStartState lim 0) rfl (by simpa [docStartState] using hl) h
+          have hw : wfAll true [] (docBody d) = true := congrArg (·.2.2) (G_docBody true d)
+          simp only [docStartState] at this
+          rw [hw] at this; cases this
+        obtain ⟨pre, ev, post, heq, -, -, herr⟩ := runFrom_err h
+        have hb := observe_err herr
+        rw [heq] at hp hl hwi
+        simp only [List.all_append, List.all_cons, Bool.and_eq_true] at hp
+        obtain ⟨hpp, hpe, -⟩ := hp
+        rw [pro_of_not_docStart (plainEv_iff.1 hpe).1] at hb
+        simp only [List.length_append, List.length_cons] at hl hwi
+        have hlen' : pre.length < 2 ^ 64 := by omega
+        cases b <;> simp only [BreachSpec, doc_lim] at hb
+        case events n => rw [doc_events lim pre hpp] at hb; omega
+        case nodes n =>
+          rw [doc_nodes lim pre hpp] at hb
+          rw [nNodes_append, nNodes_cons, hb.1] at hwi; simp only [b2n, if_true] at hwi; omega
+        case aliases n =>
+          rw [doc_aliases lim pre hpp] at hb
+          rw [nAliases_append, nAliases_cons, hb.1] at hwi; simp only [b2n, if_true] at hwi; omega
+        case documents n =>
+          have : (nextAll (docStartState lim 0) pre).perDocument = true := by rw [nextAll_pd]; rfl
+          rw [this] at hb; cases hb.2.1
+        case anchors n =>
+          rw [doc_defined lim pre hpp] at hb
+          have h1 : (defAfter [] (pre ++ ev :: post)).length =
+              (defAfter (defIns (defAfter [] pre) (anchorOf ev)) post).length := by
+            rw [defAfter_append]; rfl
+          have h2 := defAfter_length_ge (defIns (defAfter [] pre) (anchorOf ev)) post
+          omega
+        case scalarBytes n =>
+          rw [doc_tsb lim pre hpp, satAdd_eq_min] at hb
+          rw [scalarBytes_append, scalarBytes_cons] at hwi; omega
+        case depth n =>
+          obtain ⟨hd, hm⟩ := doc_depth lim pre hpp hlen'
+          have hle := depthAfter_le 0 pre
+          rw [hd, hm, satAdd_one (by omega)] at hb
+          have hge := maxDepthFrom_ge (depthStep (depthAfter 0 pre) ev)
+            (max (maxDepthFrom 0 0 pre) (depthStep (depthAfter 0 pre) ev)) post
+          rw [maxDepthFrom_append] at hwi
+          simp only [maxDepthFrom] at hwi
+          rw [depthStep_eq, hb.1] at hge hwi
+          simp only [if_true] at hge hwi hb
+          omega
+        case mergeKeys n =>
+          rw [doc_mergeKeys lim pre hpp, doc_containers lim pre hpp] at hb
+          rw [mkAll_append] at hwi; simp only [mkAll] at hwi; omega
+        case unbalanced => exact hnu rfl
 
 -- (E) non-vacuity and concrete thresholds
 def demoLim : Limits :=
@@ -281,6 +584,206 @@ example : run { demoLim with maxDepth := 1 } false (flattenStream [demoDoc]) = .
 example : run { demoLim with maxMergeKeys := 0 } false (flattenStream [demoDoc]) = .error (3, .mergeKeys 1) := by rfl
 example : perDocAccepts { demoLim with maxAnchors := 1 } [demoDoc, demoDoc, demoDoc] = true := by decide
 
+/-! ### regression: the witness of the repaired defect — the stream `[a]` / `b` / `c` with `max_events = 4`
+
+Before the repair `observe` charged 4 events to `[a]` (its `DocumentStart` was reset away, `StreamStart` too), accepted
+it, and then counted the `DocumentStart` of `b` as event 5 of `[a]`: the iterator yielded `[Ok, Err(Events{5})]` —
+document 2 (three events of its own) was rejected because of document 1.
+Now every document is charged exactly its own events: `[a]` has 5 (`DocumentStart`, `SequenceStart`, scalar,
+`SequenceEnd`, `DocumentEnd`) and is over `max_events = 4` ITSELF, at its own `DocumentEnd`; `b` and `c` have 3 and are
+accepted wherever they stand. -/
+
+/-- `[a]` -/
+def regA : Node := .seq 0 none [.scalar ['a'] .plain 0 none]
+/-- `b` -/
+def regB : Node := .scalar ['b'] .plain 0 none
+/-- `c` -/
+def regC : Node := .scalar ['c'] .plain 0 none
+def lim4 : Limits := { demoLim with maxEvents := 4 }
+def lim5 : Limits := { demoLim with maxEvents := 5 }
+
+/-- each document on its own under `max_events = 4`: `[Err(Events{5}), Ok, Ok]` -/
+example : [regA, regB, regC].map (fun d => perDocAccepts lim4 [d]) = [false, true, true] := by decide
+/-- the breach of `[a]` is its own: raised at its own `DocumentEnd` (index 4 of the document), `events 5` -/
+example : runFrom (Enf.new lim4 true) 0 (flattenDoc regA) = .error (4, .events 5) := by rfl
+/-- the enforcer run over the whole witness stops in document 1, at ITS `DocumentEnd` (event index 5 of the stream),
+no longer at the `DocumentStart` of document 2 (index 6) -/
+example : run lim4 true (flattenStream [regA, regB, regC]) = .error (5, .events 5) := by rfl
+/-- `b` and `c` are accepted behind any accepted documents, e.g. behind each other (the old code rejected the second
+of two three-event documents under `max_events = 3`: 1 + 3 framing-shifted events) -/
+example : perDocAccepts { demoLim with maxEvents := 3 } [regB, regC, regB, regC] = true := by decide
+/-- with `max_events = 5` (the true size of `[a]`) all three are accepted, in every order -/
+example : perDocAccepts lim5 [regA, regB, regC] = true ∧ perDocAccepts lim5 [regC, regB, regA] = true ∧
+    perDocAccepts lim5 [regB, regA, regC] = true := by decide
+/-- identical documents are charged identically at the first, a middle and the last position: `[a]` is 5 events,
+1 + 1 nodes, depth 1, one scalar byte — `perdoc_usage_eq_single` / `perdoc_usage_last` on an instance
+(the old code said 4 events at the first and middle position and 5 at the last) -/
+example :
+    chargedTo lim5 [] regA = some (usageDoc regA) ∧ chargedTo lim5 [regB] regA = some (usageDoc regA) ∧
+    chargedTo lim5 [regB, regA, regC] regA = some (usageDoc regA) ∧
+    okReport (run lim5 true (flattenStream [regB, regC, regA])) = some (usageDoc regA) ∧
+    usageOfSingle lim5 regA = some (usageDoc regA) ∧
+    usageDoc regA = { events := 5, nodes := 2, maxDepth := 1, totalScalarBytes := 1 } := by decide
+/-- exact threshold per document: `max_events` = its own event count accepts, one less rejects (`perdoc_accepts_iff`) -/
+example : within lim5 (usageDoc regA) = true ∧ within lim4 (usageDoc regA) = false := by decide
+
+/-- FOR THE RECORD ONLY — `observe` as it was before the repair (not part of the model): every event was counted and
+limit-checked first, and only then did a `DocumentStart` reset the per-document state. -/
+def observeOld (e : Enf) (ev : Raw) : Except Breach Enf :=
+  match e.observeCounted ev with
+  | .error b => .error b
+  | .ok e1 =>
+    match ev with
+    | .docStart _ => .ok e1.beginDocument
+    | _ => .ok e1
+
+def runFromOld (e : Enf) (i : Nat) : List Raw → Except (Nat × Breach) Enf
+  | [] => .ok e
+  | ev :: rest =>
+    match observeOld e ev with
+    | .error b => .error (i, b)
+    | .ok e' => runFromOld e' (i + 1) rest
+
+/-- the old code on the witness: document 1 (`[a]`, indices 1–5) passes, the breach is raised at index 6 — the
+`DocumentStart` of document 2 — with the count of document 1 (`events 5`); and the same document `b` was accepted
+in first position but rejected behind `[a]`: position dependence, now excluded by `perdoc_position_independent`. -/
+example : runFromOld (Enf.new lim4 true) 0 (flattenStream [regA, regB, regC]) = .error (6, .events 5) := by rfl
+example :
+    (∃ e, runFromOld (Enf.new lim4 true) 0 (beforeDoc [] ++ flattenDoc regB) = .ok e) ∧
+    runFromOld (Enf.new lim4 true) 0 (beforeDoc [regA] ++ flattenDoc regB) = .error (6, .events 5) ∧
+    (∃ e, run lim4 true (beforeDoc [] ++ flattenDoc regB) = .ok e) ∧
+    (∃ e, run lim5 true (beforeDoc [regA] ++ flattenDoc regB) = .ok e ∧ e.report.events = 3) :=
+  ⟨⟨_, rfl⟩, rfl, ⟨_, rfl⟩, ⟨_, rfl, rfl⟩⟩
+/-- the old code charged `StreamEnd` to the last document: `[a]` in last position was rejected at the `StreamEnd`
+(index 9), and the same document was charged 4 events at its `DocumentEnd` when something followed but 5 when it was
+the last one -/
+example : runFromOld (Enf.new lim4 true) 0 (flattenStream [regB, regA]) = .error (9, .events 5) := by rfl
+example :
+    (∃ e, runFromOld (Enf.new lim5 true) 0 (beforeDoc [regA]) = .ok e ∧ e.report.events = 4) ∧
+    (∃ e, runFromOld (Enf.new lim5 true) 0 (flattenStream [regA]) = .ok e ∧ e.report.events = 5) :=
+  ⟨⟨_, rfl, rfl⟩, ⟨_, rfl, rfl⟩⟩
+
+/-! ### the iterator's recovery path (`LiveEvents::skip_to_next_document`)
+
+After a deserialization error the iterator skips to the next `DocumentStart`, pulling raw events WITHOUT `observe`.
+The first version of the repair left `begin_document()` at that `DocumentStart`: the event itself was not observed, so
+a document read right after an abandoned one was charged ONE EVENT LESS than the same document anywhere else
+(on that code, target `Vec<i64>`, `max_events = 4`: `[x]` / `[1]` / `[2]` gave
+`[Err(InvalidScalar), Ok([1]), Ok([2]), Err(Events{5})]` while `[1]` / `[2]` gave `[Ok([1]), Err(Events{5})]`).
+The completed repair calls `begin_document_at(&raw)` = `observe(&raw)` under the per-document policy (model:
+`Enf.beginDocumentAt`, `Pump.skipBudget`): the recovery path starts a document with exactly the state the normal
+path starts it with. -/
+
+/-- the enforcer state in which document `[x]` is abandoned (type error at the scalar), `max_events = 4` -/
+def eAbandoned : Enf :=
+  { lim := lim4, perDocument := true, report := { events := 3, nodes := 2, maxDepth := 1, totalScalarBytes := 1 },
+    depth := 1, containers := [.seq false] }
+
+example : runFrom (Enf.new lim4 true) 0 [.streamStart, .docStart false, .seqStart 0 none, .scalar ['x'] .plain 0 none] =
+    .ok eAbandoned := by rfl
+
+/-- (T) perdoc_recovery_position_independent: when `skip_to_next_document` finds a document, the enforcer state with
+which the pump starts that document is the state with which the NORMAL path (`observe(DocumentStart)` in the parser
+loop) starts the same document — from the abandoned state itself and from any other per-document state with the same
+limits (the fresh one, the one after any accepted documents): report `{events := 1}` (the `DocumentStart` is charged),
+no anchors, depth 0, no containers.  Hence a document is charged identically after an abandoned document and anywhere
+else (`perdoc_position_independent_raw` applies to the run that follows). -/
+theorem perdoc_recovery_position_independent (p p' : Pump.Pump) (inp rest : List Pump.RawItem) (enf : Enf)
+    (hb : p.budget = some enf) (hpd : enf.perDocument = true)
+    (h : Pump.skipToNextDocument p inp = (true, p', rest)) :
+    ∃ e', p'.budget = some e' ∧
+      e' = docStartState enf.lim enf.report.documents ∧
+      (∀ (e0 : Enf) (x : Bool), e0.perDocument = true → e0.lim = enf.lim → e0.report.documents = enf.report.documents →
+        e0.observe (.docStart x) = .ok e') ∧
+      e'.report = { events := 1, documents := enf.report.documents } ∧ e'.defined = [] ∧ e'.depth = 0 ∧
+      e'.containers = [] := by
+  unfold Pump.skipToNextDocument at h
+  obtain ⟨b, hsb⟩ := skipLoop_budget _ p' inp rest h
+  simp only [hb] at hsb
+  cases hp' : p'.budget with
+  | none =>
+    rw [hp'] at hsb
+    simp only [Pump.skipBudget] at hsb
+    split at hsb <;> cases hsb
+  | some e' =>
+    rw [hp'] at hsb
+    have hobs := skipBudget_some_pd hpd hsb
+    rw [observe_docStart_pd b hpd] at hobs
+    split at hobs
+    · cases hobs
+    · rename_i hle
+      injection hobs with hobs
+      subst hobs
+      refine ⟨_, rfl, rfl, ?_, rfl, rfl, rfl, rfl⟩
+      intro e0 x h0 h1 h2
+      rw [observe_docStart_pd x h0, h1, h2, if_neg hle]
+
+/-- (T) the recovery finds no document only for a reason that would stop the normal path as well: if the skip reaches
+a `DocumentStart` under the per-document policy and gives up there, then `max_events = 0` — no document at all can be
+read under that budget. -/
+theorem perdoc_recovery_breach_only_zero (enf : Enf) (b : Bool) (hpd : enf.perDocument = true)
+    (h : Pump.skipBudget (some enf) (.docStart b) = none) : enf.lim.maxEvents = 0 := by
+  simp only [Pump.skipBudget, Enf.beginDocumentAt, hpd, if_true, observe_docStart_pd b hpd] at h
+  split at h
+  · rename_i h1
+    split at h1
+    · omega
+    · cases h1
+  · cases h
+
+/-- regression (formerly the (F) witness `perdoc_recovery_path_counterexample`): after `skip_to_next_document` from the
+state in which `[x]` was abandoned, the document `[a]` is charged its 5 events and rejected under `max_events = 4` at its
+own `DocumentEnd` — exactly as on the normal path from the very same state, and as on its own (`docRun`); under
+`max_events = 5` it is accepted on both paths with the report `usageDoc regA`. -/
+theorem perdoc_recovery_path_regression :
+    ∃ p' e',
+      Pump.skipToNextDocument { limits := ⟨1000, 10, 100⟩, budget := some eAbandoned }
+          [.ev .seqEnd 0, .ev .docEnd 0, .ev (.docStart true) 0] = (true, p', []) ∧
+      p'.budget = some e' ∧
+      runFrom e' 1 (docBody regA) = .error (4, .events 5) ∧
+      runFrom eAbandoned 0 (flattenDoc regA) = .error (4, .events 5) ∧
+      docRun lim4 regA = .error (4, .events 5) :=
+  ⟨_, _, rfl, rfl, rfl, rfl, rfl⟩
+
+example :
+    ∃ p' e' e2,
+      Pump.skipToNextDocument { limits := ⟨1000, 10, 100⟩, budget := some { eAbandoned with lim := lim5 } }
+          [.ev .seqEnd 0, .ev .docEnd 0, .ev (.docStart true) 0] = (true, p', []) ∧
+      p'.budget = some e' ∧ runFrom e' 1 (docBody regA) = .ok e2 ∧ e2.finalize.1 = usageDoc regA ∧
+      docRun lim5 regA = .ok e2 :=
+  ⟨_, _, _, rfl, rfl, rfl, by decide, rfl⟩
+
+/-- for the record: what `begin_document()` alone (the recovery path before the completed repair) left behind differs
+from what `observe(DocumentStart)` leaves in exactly one event — `events = 0` instead of `events = 1` -/
+theorem perdoc_recovery_path_diff (e e1 : Enf) (x : Bool) (hpd : e.perDocument = true)
+    (h : e.observe (.docStart x) = .ok e1) :
+    e.beginDocument = { e1 with report := { e1.report with events := 0 } } := by
+  obtain ⟨rfl, -⟩ := observe_ok h
+  simp [next, hpd, isDocStart, Enf.beginDocument, Report.reset]
+
+/-- the whole-input policy is untouched by the recovery hook: skipped events are not counted -/
+theorem recovery_allcontent_noop (e : Enf) (ev : Raw) (hpd : e.perDocument = false) : e.beginDocumentAt ev = .ok e := by
+  simp [Enf.beginDocumentAt, hpd]
+
+-- satisfiability of the hypotheses of the per-document theorems on non-trivial instances
+example : ∃ e, run demoLim true (beforeDoc [demoDoc, regA]) = .ok e ∧ e.report.events = 5 ∧ e.perDocument = true :=
+  ⟨_, rfl, rfl, rfl⟩
+example : perDocAccepts demoLim [demoDoc, regA] = true := by decide
+example : ∃ e, runFrom (Enf.new demoLim true) 0 (flattenDoc demoDoc) = .ok e ∧ e.finalize.1 = usageDoc demoDoc :=
+  ⟨_, rfl, by decide⟩
+/-- `perdoc_breach_in_doc` / `perdoc_doc_breach_surfaces`: a middle document over the limit -/
+example : run { demoLim with maxDepth := 1 } true (flattenStream ([regA, regB] ++ demoDoc :: [regC])) =
+      .error ((beforeDoc [regA, regB]).length + 5, .depth 2) ∧
+    runFrom (Enf.new { demoLim with maxDepth := 1 } true) 0 (flattenDoc demoDoc) = .error (5, .depth 2) ∧
+    5 < (flattenDoc demoDoc).length := ⟨rfl, rfl, by decide⟩
+/-- `perdoc_position_independent_raw` on a state left behind by an abandoned, half-read document (open containers,
+anchors, depth 2): the next document runs as from the fresh state -/
+example :
+    ∃ e, runFrom (Enf.new demoLim true) 0 [.docStart false, .mapStart 7 none, .scalar ['k'] .plain 0 none, .seqStart 8 none] = .ok e ∧
+      e.depth = 2 ∧ e.defined = [8, 7] ∧
+      runFrom e 0 (flattenDoc demoDoc) = runFrom (Enf.new demoLim true) 0 (flattenDoc demoDoc) :=
+  ⟨_, rfl, rfl, rfl, rfl⟩
+
 #print axioms no_unbalanced_on_trees_counterexample
 #print axioms no_unbalanced_on_trees_Full_false
 #print axioms no_unbalanced_on_trees_partial
@@ -293,5 +796,22 @@ example : perDocAccepts { demoLim with maxAnchors := 1 } [demoDoc, demoDoc, demo
 #print axioms first_breach_kind
 #print axioms perdoc_independent
 #print axioms perdoc_state_reset
+#print axioms perdoc_position_independent_raw
+#print axioms perdoc_position_independent
+#print axioms perdoc_stream_decomp
+#print axioms perdoc_streamEnd_free
+#print axioms perdoc_followers_independent
+#print axioms perdoc_breach_in_doc
+#print axioms perdoc_doc_breach_surfaces
+#print axioms perdoc_state_eq_single
+#print axioms perdoc_usage_eq_single
+#print axioms perdoc_usage_last
+#print axioms perdoc_report_eq_usageDoc
+#print axioms perdoc_accepts_iff
+#print axioms perdoc_recovery_position_independent
+#print axioms perdoc_recovery_breach_only_zero
+#print axioms perdoc_recovery_path_regression
+#print axioms recovery_allcontent_noop
+#print axioms perdoc_recovery_path_diff
 
 end SaphyrVerif.Props.C07
